@@ -371,6 +371,218 @@ Proof.
 Qed.
 
 
+(* ---- completeness: every bridge pair of the jar reaches the insertion ---- *)
+Definition remap_step (R : bremap) (I : list prov) (acc : res pairs) (e : mref * mref) : res pairs :=
+  match acc with
+  | Err => Err
+  | Ok t => match map_method_ref_obj R I (fst e), map_method_ref_obj R I (snd e) with
+            | Ok a, Ok b => Ok (map_put mref_eqb a b t)
+            | _, _ => Err
+            end
+  end.
+
+Lemma remap_pairs_fold R I l : remap_pairs R I l = fold_left (remap_step R I) l (Ok []).
+Proof. reflexivity. Qed.
+
+Lemma remap_fold_Err R I l : fold_left (remap_step R I) l Err = Err.
+Proof. induction l as [|e l IH]; cbn [fold_left remap_step]; [reflexivity|exact IH]. Qed.
+
+(* SpecializedMethods::remap collects into an IndexMap keyed by the REMAPPED bridge: when two bridges of the
+   jar get the same intermediary reference the later one (in the order of bridge_to_specialized) replaces the
+   delegate of the earlier one.  [last_remap f l b']: the remapped delegate of the last pair of l whose
+   bridge is remapped to b'. *)
+Fixpoint last_remap (f : mref -> res mref) (l : pairs) (b' : mref) : option mref :=
+  match l with
+  | [] => None
+  | (b, s) :: l' =>
+      match last_remap f l' b' with
+      | Some x => Some x
+      | None => match f b, f s with
+                | Ok a, Ok s' => if mref_eqb a b' then Some s' else None
+                | _, _ => None
+                end
+      end
+  end.
+
+Lemma remap_fold_get R I l : forall t P,
+  fold_left (remap_step R I) l (Ok t) = Ok P ->
+  forall b', map_get mref_eqb b' P
+             = match last_remap (map_method_ref_obj R I) l b' with Some x => Some x | None => map_get mref_eqb b' t end.
+Proof.
+  induction l as [|[b s] l IH]; intros t P; cbn [fold_left].
+  - intros [= <-] b'. reflexivity.
+  - unfold remap_step at 2. cbn [fst snd].
+    destruct (map_method_ref_obj R I b) as [a|] eqn:Ea; [|rewrite remap_fold_Err; discriminate].
+    destruct (map_method_ref_obj R I s) as [a2|] eqn:Ea2; [|rewrite remap_fold_Err; discriminate].
+    intros Hf b'. rewrite (IH _ _ Hf b'). cbn [last_remap].
+    destruct (last_remap (map_method_ref_obj R I) l b') as [x|]; [reflexivity|]. rewrite Ea, Ea2.
+    destruct (mref_eqb a b') eqn:E.
+    + apply mref_eqb_eq in E. subst b'. apply (map_get_put_same mref_eqb mref_eqb_dec).
+    + apply (map_get_put_other mref_eqb mref_eqb_dec). intros ->. rewrite (eqb_refl_of mref_eqb mref_eqb_dec) in E. discriminate.
+Qed.
+
+Lemma remap_fold_total R I l : forall t P,
+  fold_left (remap_step R I) l (Ok t) = Ok P ->
+  forall b s, In (b, s) l -> exists b' s', map_method_ref_obj R I b = Ok b' /\ map_method_ref_obj R I s = Ok s'.
+Proof.
+  induction l as [|[b0 s0] l IH]; intros t P Hf b s Hi; [destruct Hi|]. cbn [fold_left] in Hf.
+  unfold remap_step at 2 in Hf. cbn [fst snd] in Hf.
+  destruct (map_method_ref_obj R I b0) as [a|] eqn:Ea; [|rewrite remap_fold_Err in Hf; discriminate].
+  destruct (map_method_ref_obj R I s0) as [a2|] eqn:Ea2; [|rewrite remap_fold_Err in Hf; discriminate].
+  destruct Hi as [[= <- <-]|Hi]; [exists a, a2; auto|exact (IH _ _ Hf b s Hi)].
+Qed.
+
+Lemma remap_fold_NoDup R I l : forall t P,
+  fold_left (remap_step R I) l (Ok t) = Ok P -> NoDup (map fst t) -> NoDup (map fst P).
+Proof.
+  induction l as [|[b0 s0] l IH]; intros t P; cbn [fold_left]; [intros [= <-] H; exact H|].
+  unfold remap_step at 2. cbn [fst snd].
+  destruct (map_method_ref_obj R I b0) as [a|]; [|rewrite remap_fold_Err; discriminate].
+  destruct (map_method_ref_obj R I s0) as [a2|]; [|rewrite remap_fold_Err; discriminate].
+  intros Hf Hn. apply (IH _ _ Hf). apply (map_put_NoDup mref_eqb mref_eqb_dec). exact Hn.
+Qed.
+
+(* the winner is a pair of l, and no later pair of l has its bridge remapped to b' *)
+Lemma last_remap_Some f l b' x : last_remap f l b' = Some x ->
+  exists l1 b s l2, l = l1 ++ (b, s) :: l2 /\ f b = Ok b' /\ f s = Ok x /\
+                    forall b2 s2 x2, In (b2, s2) l2 -> f b2 = Ok b' -> f s2 = Ok x2 -> False.
+Proof.
+  induction l as [|[b0 s0] l IH]; cbn [last_remap]; [discriminate|].
+  destruct (last_remap f l b') as [y|] eqn:El.
+  - intros [= ->]. destruct (IH eq_refl) as (l1 & b & s & l2 & -> & H1 & H2 & H3).
+    exists ((b0, s0) :: l1), b, s, l2. auto.
+  - destruct (f b0) as [a|] eqn:Ea; [|discriminate]. destruct (f s0) as [a2|] eqn:Ea2; [|discriminate].
+    destruct (mref_eqb a b') eqn:E; [|discriminate]. apply mref_eqb_eq in E. subst a. intros [= <-].
+    exists [], b0, s0, l. split; [reflexivity|]. split; [exact Ea|]. split; [exact Ea2|].
+    intros b2 s2 x2 Hi H1 H2. clear IH Ea Ea2. induction l as [|[b1 s1] l IHl]; [destruct Hi|].
+    cbn [last_remap] in El. destruct (last_remap f l b') as [y|]; [discriminate|].
+    destruct Hi as [[= -> ->]|Hi]; [|exact (IHl eq_refl Hi)].
+    rewrite H1, H2, (eqb_refl_of mref_eqb mref_eqb_dec) in El. discriminate.
+Qed.
+
+Lemma last_remap_hit f l b s b' s' : In (b, s) l -> f b = Ok b' -> f s = Ok s' -> exists x, last_remap f l b' = Some x.
+Proof.
+  induction l as [|[b0 s0] l IH]; intros Hi Hb Hs; [destruct Hi|]. cbn [last_remap].
+  destruct (last_remap f l b') as [y|] eqn:El; [eauto|].
+  destruct Hi as [[= -> ->]|Hi].
+  - rewrite Hb, Hs, (eqb_refl_of mref_eqb mref_eqb_dec). eauto.
+  - destruct (IH Hi Hb Hs) as (x & Hx). discriminate.
+Qed.
+
+Lemma bridge_pair_fun J b s s2 : is_bridge_pair J b s -> is_bridge_pair J b s2 -> s = s2.
+Proof.
+  intros (a & _ & _ & H1 & _) (a2 & _ & _ & H2 & _). apply H2. apply H1. reflexivity.
+Qed.
+
+(* add_specialized_methods_to_mappings: the pair list P that reaches the insertion is EXACTLY the list of
+   bridge pairs of the jar re-expressed in intermediary names:
+     sound      every pair of P comes from a bridge pair of the jar;
+     complete   every bridge pair (b, s) of the jar has its intermediary bridge b' as a key of P;
+     functional P has one entry per key;
+     last wins  the entry of b' holds the intermediary delegate of the last bridge pair (in the order of
+                bridge_to_specialized) whose bridge becomes b' — in particular (b', s') itself when every
+                bridge pair that collides with b on b' has the same intermediary delegate;
+   and the result is the frame of the given mappings around P. *)
+Theorem add_specialized_exact J cal libs M M' :
+  NoDup (map class_key (ms_classes M)) ->
+  add_specialized J cal libs M = Ok M' ->
+  exists P,
+    (forall b' s', In (b', s') P ->
+       exists b s, is_bridge_pair J b s /\ cal_ref J cal libs b = Ok b' /\ cal_ref J cal libs s = Ok s') /\
+    (forall b s, is_bridge_pair J b s ->
+       exists b' s', cal_ref J cal libs b = Ok b' /\ cal_ref J cal libs s = Ok s' /\ exists s'', In (b', s'') P) /\
+    NoDup (map fst P) /\
+    (exists b2s s2b, get_specialized J = Ok (b2s, s2b) /\
+       forall b', map_get mref_eqb b' P = last_remap (cal_ref J cal libs) b2s b') /\
+    (forall b s b' s', is_bridge_pair J b s -> cal_ref J cal libs b = Ok b' -> cal_ref J cal libs s = Ok s' ->
+       (forall b2 s2, is_bridge_pair J b2 s2 -> cal_ref J cal libs b2 = Ok b' -> cal_ref J cal libs s2 = Ok s') ->
+       In (b', s') P) /\
+    ms_ns M' = ms_ns M /\ ms_doc M' = ms_doc M /\
+    Forall2 (class_frame (named_ref J cal libs M) P) (ms_classes M) (ms_classes M').
+Proof.
+  intros Hnd. unfold add_specialized, cal_ref, named_ref, cal_remapper, named_remapper.
+  destruct (ns_index s_official (ms_ns cal) 0) as [o|]; [|discriminate].
+  destruct (ns_index s_intermediary (ms_ns cal) 0) as [i|]; [|discriminate].
+  destruct (remapper_b cal o i) as [Rc|]; [|discriminate].
+  destruct (ns_index s_intermediary (ms_ns M) 0) as [i2|]; [|discriminate].
+  destruct (ns_index s_named (ms_ns M) 0) as [n2|]; [|discriminate].
+  destruct (remapper_b M i2 n2) as [Rn|]; [|discriminate].
+  destruct (get_specialized J) as [[b2s s2b]|] eqn:Eg; [|discriminate].
+  destruct (remap_pairs Rc (map prov_of_jar (J :: libs)) b2s) as [P|] eqn:Ep; [|discriminate].
+  destruct (remap_pairs Rc (map prov_of_jar (J :: libs)) s2b) as [P2|]; [|discriminate].
+  intros Ha. exists P. rewrite remap_pairs_fold in Ep.
+  pose proof (remap_fold_get _ _ _ _ _ Ep) as Hget. cbn [map_get] in Hget.
+  set (f := map_method_ref_obj Rc (map prov_of_jar (J :: libs))) in *.
+  assert (Hget' : forall b', map_get mref_eqb b' P = last_remap f b2s b').
+  { intros b'. rewrite Hget. destruct (last_remap f b2s b'); reflexivity. }
+  assert (Hcomplete : forall b s, is_bridge_pair J b s ->
+            exists b' s', f b = Ok b' /\ f s = Ok s' /\ exists s'', In (b', s'') P).
+  { intros b s Hb. apply (bridge_iff J _ _ Eg) in Hb.
+    destruct (remap_fold_total _ _ _ _ _ Ep b s Hb) as (b' & s' & E1 & E2). exists b', s'. split; [exact E1|]. split; [exact E2|].
+    destruct (last_remap_hit f b2s b s b' s' Hb E1 E2) as (x & Hx). exists x.
+    apply (map_get_Some_In mref_eqb mref_eqb_dec). rewrite Hget'. exact Hx. }
+  split; [|split; [exact Hcomplete|split; [|split; [|split]]]].
+  - intros b' s' Hi.
+    destruct (remap_pairs_In _ _ _ _ _ Ep b' s' Hi) as [[]|(b & s & Hi1 & E1 & E2)].
+    exists b, s. split; [apply (bridge_iff J _ _ Eg); exact Hi1|auto].
+  - apply (remap_fold_NoDup _ _ _ _ _ Ep). constructor.
+  - exists b2s, s2b. split; [reflexivity|exact Hget'].
+  - intros b s b' s' Hb E1 E2 Hsame. apply (bridge_iff J _ _ Eg) in Hb.
+    destruct (last_remap_hit f b2s b s b' s' Hb E1 E2) as (x & Hx).
+    apply (map_get_Some_In mref_eqb mref_eqb_dec). rewrite Hget', Hx. f_equal.
+    destruct (last_remap_Some _ _ _ _ Hx) as (l1 & b0 & s0 & l2 & El & F1 & F2 & _).
+    assert (Hb0 : is_bridge_pair J b0 s0).
+    { apply (bridge_iff J _ _ Eg). rewrite El. apply in_app_iff. right. left. reflexivity. }
+    pose proof (Hsame b0 s0 Hb0 F1) as F3. change (f s0 = Ok s') in F3. congruence.
+  - apply (mappings_frame _ _ _ _ Hnd Ha).
+Qed.
+
+Lemma Forall2_In_l {A B} (R : A -> B -> Prop) l l' x : Forall2 R l l' -> In x l -> exists x', In x' l' /\ R x x'.
+Proof.
+  induction 1 as [|a b l l' Hab _ IH]; intros Hi; [destruct Hi|].
+  destruct Hi as [<-|Hi]; [exists b; split; [left; reflexivity|exact Hab]|].
+  destruct (IH Hi) as (x' & Hx' & Hr). exists x'. split; [right; exact Hx'|exact Hr].
+Qed.
+
+(* The main sentence of the property, end to end.  (b, s) a bridge pair of the jar, b' and s' their
+   intermediary references, c the row of the mappings for the bridge's (intermediary) class, and no other
+   bridge pair of the jar lands on the same intermediary bridge or on the same (class, delegate key)
+   ("at most one bridge per delegate and class").  Then the produced mappings hold, in that class, under the
+   delegate's key, exactly: the delegate's descriptor, the names [delegate's intermediary name; the name the
+   mappings give the bridge through inheritance], and the javadoc and parameters of the old entry if any. *)
+Theorem bridge_gets_name J cal libs M M' b s b' s' c :
+  NoDup (map class_key (ms_classes M)) ->
+  add_specialized J cal libs M = Ok M' ->
+  is_bridge_pair J b s -> cal_ref J cal libs b = Ok b' -> cal_ref J cal libs s = Ok s' ->
+  (forall b2 s2 b2' s2', is_bridge_pair J b2 s2 -> cal_ref J cal libs b2 = Ok b2' -> cal_ref J cal libs s2 = Ok s2' ->
+     b2' = b' \/ (mr_class b2' = mr_class b' /\ snd s2' = snd s') -> b2 = b) ->
+  In c (ms_classes M) -> class_key c = Some (mr_class b') ->
+  exists c' nm, In c' (ms_classes M') /\ c_names c' = c_names c /\ c_doc c' = c_doc c /\ c_fields c' = c_fields c /\
+    named_ref J cal libs M b' = Ok nm /\
+    find_meth (snd s') (c_methods c')
+    = Some (mkMeth (mr_desc s') (names2 (mr_name s') nm)
+              (doc_of (find_meth (snd s') (c_methods c))) (params_of (find_meth (snd s') (c_methods c)))).
+Proof.
+  intros Hnd Ha Hb E1 E2 Halone Hc Hk.
+  destruct (add_specialized_exact J cal libs M M' Hnd Ha) as (P & Hsound & Hcomp & _ & _ & Hhit & _ & _ & HF).
+  assert (HinP : In (b', s') P).
+  { apply (Hhit b s b' s' Hb E1 E2). intros b2 s2 Hb2 F1.
+    destruct (cal_ref J cal libs s2) as [s2'|] eqn:F2.
+    - assert (b2 = b) by (apply (Halone b2 s2 b' s2' Hb2 F1 F2); left; reflexivity). subst b2.
+      rewrite (bridge_pair_fun J b s2 s Hb2 Hb) in F2. congruence.
+    - exfalso. destruct (Hcomp b2 s2 Hb2) as (x1 & x2 & _ & G2 & _). congruence. }
+  assert (Hlast : lastp P (mr_class b') (snd s') = Some b').
+  { destruct (lastp P (mr_class b') (snd s')) as [bx|] eqn:El.
+    - apply lastp_Some in El. destruct El as (sx & Hix & Ecx & Ekx). f_equal.
+      destruct (Hsound _ _ Hix) as (b2 & s2 & Hb2 & F1 & F2).
+      assert (b2 = b) by (apply (Halone b2 s2 bx sx Hb2 F1 F2); right; auto). subst b2. congruence.
+    - exfalso. apply (proj1 (lastp_None _ _ _) El b' s' HinP). auto. }
+  destruct (Forall2_In_l _ _ _ _ HF Hc) as (c' & Hc' & (Fn & Fd & Ff & _ & _ & Fk)).
+  specialize (Fk _ Hk (snd s')). rewrite Hlast in Fk. destruct Fk as (nm & En & Ef).
+  exists c', nm. split; [exact Hc'|]. split; [exact Fn|]. split; [exact Fd|]. split; [exact Ff|]. split; [exact En|].
+  rewrite Ef. destruct s' as [sc [sn sd]]. reflexivity.
+Qed.
+
 (* ---- the decidable well-formedness of Quill.Mappings gives the distinct keys used above ---- *)
 Lemma nodupb_NoDup {A} (eqb : A -> A -> bool) (H : forall a b, eqb a b = true <-> a = b) l :
   nodupb eqb l = true -> NoDup l.
@@ -458,6 +670,30 @@ Lemma nonvacuous_holds : nonvacuous.
 Proof. unfold nonvacuous. repeat split; vm_compute; reflexivity. Qed.
 
 
+
+(* the hypotheses of bridge_gets_name are satisfiable: the fixture's bridge, end to end *)
+Definition end_to_end_example : Prop :=
+  is_bridge_pair ex_jar ex_bridge ex_delegate /\
+  (forall b2 s2, is_bridge_pair ex_jar b2 s2 -> b2 = ex_bridge) /\
+  exists c' nm, In c' (ms_classes ex_result) /\ named_ref ex_jar ex_cal [] ex_maps ex_bridge = Ok nm /\ nm = n_named /\
+    find_meth (n_setData, d_int) (c_methods c') = Some (mkMeth d_int [Some n_setData; Some n_named] None []).
+
+Lemma end_to_end_example_holds : end_to_end_example.
+Proof.
+  destruct nonvacuous_holds as (Hg & _ & Hwf & Hadd).
+  assert (Hb : is_bridge_pair ex_jar ex_bridge ex_delegate) by (apply (bridge_iff _ _ _ Hg); left; reflexivity).
+  assert (Halone : forall b2 s2, is_bridge_pair ex_jar b2 s2 -> b2 = ex_bridge).
+  { intros b2 s2 H. apply (bridge_iff _ _ _ Hg) in H. destruct H as [[= <- <-]|[]]. reflexivity. }
+  split; [exact Hb|]. split; [exact Halone|].
+  destruct (bridge_gets_name ex_jar ex_cal [] ex_maps ex_result ex_bridge ex_delegate ex_bridge ex_delegate
+              (mkClass [Some n_MyNode; Some n_MyNode] None [] [])
+              (wf_class_keys _ Hwf) Hadd Hb eq_refl eq_refl) as (c' & nm & Hc' & _ & _ & _ & En & Ef).
+  - intros b2 s2 b2' s2' H _ _ _. exact (Halone b2 s2 H).
+  - right. left. reflexivity.
+  - reflexivity.
+  - vm_compute in En. injection En as <-. exists c', n_named. split; [exact Hc'|].
+    split; [vm_compute; reflexivity|]. split; [reflexivity|]. change (n_setData, d_int) with (snd ex_delegate). rewrite Ef. reflexivity.
+Qed.
 
 (* ---- specialized_to_bridge and the hierarchy tie-break ---- *)
 (* c is a (transitive) subtype of p *)
